@@ -86,5 +86,5 @@ def run(rep):
     if tier == "quick":
         st = explore.explore(rep, names, "vf.checks.c05", tier, depth=2, root_parts=8, ops=OPS, max_states_per_level=400)
     else:
-        st = explore.explore(rep, names, "vf.checks.c05", "thorough", depth=3, root_parts=8, ops=OPS, max_states_per_level=3000, time_budget_s=1200)
+        st = explore.explore(rep, names, "vf.checks.c05", "thorough", depth=3, root_parts=8, ops=OPS, max_states_per_level=300, time_budget_s=3000)
     fill_evidence(rep, st)
